@@ -151,6 +151,15 @@ func runCheck(o *checkOpts) int {
 	for p := range pkgSet {
 		patterns = append(patterns, p)
 	}
+	needEnt := false
+	for p := range pkgSet {
+		if p == modulePath+"/actions" || p == modulePath+"/services" {
+			needEnt = true
+		}
+	}
+	if needEnt {
+		patterns = append(patterns, modulePath+"/ent/...")
+	}
 	sort.Strings(patterns)
 	loadStart := time.Now()
 	cfg := &packages.Config{Mode: packages.LoadAllSyntax, Dir: o.repo, BuildFlags: []string{"-tags=verif"}, Env: append(os.Environ(), "GOFLAGS=-mod=mod", "GOPROXY=off")}
@@ -180,7 +189,7 @@ func runCheck(o *checkOpts) int {
 	e := &Engine{prog: prog, spkgs: map[string]*ssa.Package{}, tpkgs: map[string]*packages.Package{}, specs: specs, modPath: modulePath,
 		fnByKey: map[string]*ssa.Function{}, leafCache: map[string][]Leaf{}, keySort: map[string]Sort{}, keyIsRef: map[string]bool{}, typeIDs: map[string]int{},
 		refAxioms: true, maxPaths: 4096, maxDepth: 4,
-		unmodel: map[string]map[string]bool{}, skipped: map[string]map[string]bool{}, inlined: map[string]map[string]bool{}, trustedCs: map[string]map[string]bool{}, intrUsed: map[string]map[string]bool{}}
+		unmodel: map[string]map[string]bool{}, skipped: map[string]map[string]bool{}, inlined: map[string]map[string]bool{}, trustedCs: map[string]map[string]bool{}, intrUsed: map[string]map[string]bool{}, unitAssume: map[string]map[string]bool{}}
 	packages.Visit(pkgs, nil, func(p *packages.Package) { e.tpkgs[p.PkgPath] = p })
 	for _, sp := range prog.AllPackages() {
 		e.spkgs[sp.Pkg.Path()] = sp
@@ -192,6 +201,12 @@ func runCheck(o *checkOpts) int {
 	}
 	if len(pkgs) > 0 {
 		e.fset = pkgs[0].Fset
+	}
+	if needEnt {
+		if err := e.loadEntSchema(o.repo); err != nil {
+			fmt.Fprintln(os.Stderr, "govc: cannot read the ent schema:", err)
+			return 2
+		}
 	}
 
 	var units []*Unit
@@ -219,7 +234,11 @@ func runCheck(o *checkOpts) int {
 	genSecs := time.Since(start).Seconds() - loadSecs
 
 	// solve
+	solveStart := time.Now()
 	e.solveAll(o)
+	if o.verbose {
+		fmt.Printf("timing: load %.1fs vcgen %.1fs solve %.1fs (%d obligations)\n", loadSecs, genSecs, time.Since(solveStart).Seconds(), len(e.obls))
+	}
 
 	return e.report(o, units, start, loadSecs, genSecs)
 }
@@ -298,52 +317,152 @@ func (e *Engine) lemmaObligations(o *checkOpts, todo []*Contract) []*Unit {
 }
 
 func (e *Engine) solveAll(o *checkOpts) {
-	idx := make([]int, len(e.obls))
-	for i := range idx {
-		idx[i] = i
-	}
-	if o.seed != 0 {
-		// deterministic permutation
-		s := uint64(o.seed)*2862933555777941757 + 3037000493
-		for i := len(idx) - 1; i > 0; i-- {
-			s = s*6364136223846793005 + 1442695040888963407
-			j := int(s>>33) % (i + 1)
-			idx[i], idx[j] = idx[j], idx[i]
-		}
-	}
 	if o.dumpDir != "" {
 		os.MkdirAll(o.dumpDir, 0o755)
+		for i, ob := range e.obls {
+			os.WriteFile(filepath.Join(o.dumpDir, fmt.Sprintf("%04d-%s.smt2", i, sanitizeFile(ob.Name))), []byte(ob.Script), 0o644)
+		}
+	}
+	if len(o.props) > 0 {
+		// obligations that only serve properties not asked for are not solved on this run
+		var keep []*Obligation
+		for _, ob := range e.obls {
+			if intersects(ob.Props, o.props) {
+				keep = append(keep, ob)
+			}
+		}
+		e.obls = keep
+	}
+	e.solveSet(o, e.obls)
+	// combined obligations that failed are replaced by their parts
+	var extra []*Obligation
+	for _, ob := range e.obls {
+		if len(ob.Parts) > 0 && ob.Result.Status != "unsat" {
+			ob.Skip = true
+			extra = append(extra, ob.Parts...)
+		}
+	}
+	if len(extra) > 0 {
+		e.solveSet(o, extra)
+		e.obls = append(e.obls, extra...)
+	}
+}
+
+// solveSet decides a set of obligations. Phase A groups obligations that share the same assumptions
+// (same path prefix) into one incremental z3 run (process start-up dominates otherwise); phase B re-runs
+// every obligation that was not proved there on its own, racing all solvers, to obtain a model or a
+// second opinion.
+func (e *Engine) solveSet(o *checkOpts, obls []*Obligation) {
+	groups := map[string][]*Obligation{}
+	var order []string
+	for _, ob := range obls {
+		if ob.Goal == "true" && !ob.Vacuity {
+			ob.Result = SolveResult{Status: "unsat", Solver: "simplifier"}
+			continue
+		}
+		if _, ok := groups[ob.Prefix]; !ok {
+			order = append(order, ob.Prefix)
+		}
+		groups[ob.Prefix] = append(groups[ob.Prefix], ob)
+	}
+	if o.seed != 0 {
+		s := uint64(o.seed)*2862933555777941757 + 3037000493
+		for i := len(order) - 1; i > 0; i-- {
+			s = s*6364136223846793005 + 1442695040888963407
+			j := int(s>>33) % (i + 1)
+			order[i], order[j] = order[j], order[i]
+		}
 	}
 	var wg sync.WaitGroup
-	ch := make(chan int)
+	ch := make(chan string)
+	var mu sync.Mutex
+	var retry []*Obligation
 	for w := 0; w < o.jobs; w++ {
 		wg.Add(1)
 		go func() {
 			defer wg.Done()
-			for i := range ch {
-				ob := e.obls[i]
-				if o.dumpDir != "" {
-					os.WriteFile(filepath.Join(o.dumpDir, fmt.Sprintf("%04d-%s.smt2", i, sanitizeFile(ob.Name))), []byte(ob.Script), 0o644)
+			for prefix := range ch {
+				g := groups[prefix]
+				var covers, goals []*Obligation
+				for _, ob := range g {
+					if ob.Vacuity {
+						covers = append(covers, ob)
+					} else {
+						goals = append(goals, ob)
+					}
 				}
-				if ob.Goal == "true" && !ob.Vacuity {
-					ob.Result = SolveResult{Status: "unsat", Solver: "simplifier"}
-					continue
-				}
-				if ob.Vacuity {
-					// vacuity probe: only "unsat" (contradictory assumptions) matters; a short run of one solver suffices
+				for _, ob := range covers {
 					r := runSolver(context.Background(), solvers[0], ob.Script, 1500*time.Millisecond)
 					ob.Result, ob.Tried = r, []SolveResult{r}
+				}
+				if len(goals) == 0 {
 					continue
 				}
+				if o.tier == "thorough" {
+					mu.Lock()
+					retry = append(retry, goals...)
+					mu.Unlock()
+					continue
+				}
+				var b strings.Builder
+				b.WriteString(prefix)
+				for _, ob := range goals {
+					b.WriteString("(push 1)\n(assert (not " + ob.Goal + "))\n(check-sat)\n(pop 1)\n")
+				}
+				per := 3 * time.Second
+				start := time.Now()
+				res := runSolverBatch(solvers[0], b.String(), per, len(goals))
+				el := time.Since(start).Seconds() / float64(len(goals))
+				for i, ob := range goals {
+					st := "unknown"
+					if i < len(res) {
+						st = res[i]
+					}
+					ob.Result = SolveResult{Status: st, Solver: "z3-new", Seconds: el}
+					ob.Tried = []SolveResult{ob.Result}
+					if st != "unsat" {
+						mu.Lock()
+						retry = append(retry, ob)
+						mu.Unlock()
+					}
+				}
+			}
+		}()
+	}
+	for _, p := range order {
+		ch <- p
+	}
+	close(ch)
+	wg.Wait()
+	if o.verbose {
+		fmt.Printf("solve: %d groups, %d obligations retried individually\n", len(order), len(retry))
+	}
+	// phase B
+	var wg2 sync.WaitGroup
+	ch2 := make(chan *Obligation)
+	for w := 0; w < o.jobs; w++ {
+		wg2.Add(1)
+		go func() {
+			defer wg2.Done()
+			for ob := range ch2 {
 				ob.Result, ob.Tried = solve(ob.Script, o.timeout, o.tier == "thorough")
 			}
 		}()
 	}
-	for _, i := range idx {
-		ch <- i
+	for _, ob := range retry {
+		ch2 <- ob
 	}
-	close(ch)
-	wg.Wait()
+	close(ch2)
+	wg2.Wait()
+	if o.verbose {
+		for _, ob := range retry {
+			var tried []string
+			for _, t := range ob.Tried {
+				tried = append(tried, fmt.Sprintf("%s=%s(%.1fs)", t.Solver, t.Status, t.Seconds))
+			}
+			fmt.Printf("retried: %s -> %s %v\n", ob.Name, ob.Result.Status, tried)
+		}
+	}
 }
 
 func sanitizeFile(s string) string {
@@ -410,6 +529,7 @@ func (e *Engine) report(o *checkOpts, units []*Unit, start time.Time, loadSecs, 
 	}
 	exit := 0
 	for _, prop := range props {
+		os.RemoveAll(filepath.Join(o.replayDir, prop))
 		type failure struct {
 			name, reason, detail string
 			ob                   *Obligation
@@ -433,7 +553,7 @@ func (e *Engine) report(o *checkOpts, units []*Unit, start time.Time, loadSecs, 
 			}
 		}
 		for _, ob := range e.obls {
-			if !contains(ob.Props, prop) {
+			if !contains(ob.Props, prop) || ob.Skip {
 				continue
 			}
 			if ob.Vacuity {
@@ -496,6 +616,12 @@ func (e *Engine) report(o *checkOpts, units []*Unit, start time.Time, loadSecs, 
 			exit = 1
 		}
 		// evidence
+		var unitAssumes []string
+		for u := range unitSet {
+			for _, x := range setKeys(e.unitAssume[u]) {
+				unitAssumes = append(unitAssumes, u+": "+x)
+			}
+		}
 		var unmodelled, skipped, inlined, assumedContracts, intr []string
 		for u := range unitSet {
 			for _, x := range setKeys(e.unmodel[u]) {
@@ -542,6 +668,7 @@ func (e *Engine) report(o *checkOpts, units []*Unit, start time.Time, loadSecs, 
 				"inlined_callees":          dedupe(inlined),
 				"callee_contracts_used":    dedupe(assumedContracts),
 				"intrinsic_contracts_used": dedupe(intr),
+				"unit_assumptions":         dedupe(unitAssumes),
 			},
 			"assumptions": standingAssumptions(),
 		}
